@@ -72,13 +72,25 @@ def _root_collection(e):
             e = e.operand
         else:
             break
+    if isinstance(e, ast.Call) and isinstance(e.func, ast.Name) and e.func.id in ("zip", "chain") and e.args:
+        # parallel iteration: one step per element of each argument
+        for a in e.args:
+            r = _root_collection(a)
+            if r is not None and (_COLL is None or r in _COLL):
+                return r
+        return _root_collection(e.args[0])
     return e.id if isinstance(e, ast.Name) else None
+
+
+_COLL = None
 
 
 def _derived_from(f, source_call_names):
     """Local names bound to collections with one entry per candidate sequence: results
     of the sequence enumeration and lists built one item per entry of such a list."""
+    global _COLL
     coll = set()
+    _COLL = coll
     changed = True
 
     def from_source(v):
